@@ -308,3 +308,17 @@ def enum_eq_guard(ctx, rule, body, enum_re, variant, equal_required, what, src_n
 def float_cmp_sites(body, ops=('Lt', 'Le', 'Gt', 'Ge', 'Eq', 'Ne')):
     """(bb, stmt) of f64 comparisons"""
     return [(bi, st) for bi, st in body.stmts() if st['rv']['k'] == 'bin' and st['rv']['op'] in ops and st['rv'].get('ty') == 'f64']
+
+
+def fresh_id_rule(ctx, rule, body, op, what):
+    """new ids derive from the largest defined decision-variable id plus one"""
+    s = slice_op(ctx, body, op)
+    probs = []
+    if not s.has_field('v1::DecisionVariable', 'id'): probs.append('does not depend on the defined decision-variable ids')
+    if not s.has_call(r'BTreeSet::<u64>::(last|pop_last)|BTreeMap::<.*>::last_key_value|Iterator>::max|::max_by_key|Ord>::max'):
+        probs.append('does not take the maximum of the defined ids')
+    if not (s.has_const(r'^1_u64$')): probs.append('no `+ 1`')
+    ctx.check(not probs, rule, 'T-CARRY', body.name, '%s: %s' % (what, '; '.join(probs)), body.site())
+    return s
+
+
